@@ -30,6 +30,56 @@ def tree_hash(d):
     return h.hexdigest(), n
 
 
+def disturbed_destination(astool, args, fresh_streams, work):
+    """The same command on the same input gives the same bytes whatever an earlier run left in the destination: a copy of the
+    freshly generated tree is disturbed (every file in turn: two bytes exchanged keeping the size, truncated, emptied, removed,
+    dated in the future), astool runs into it again, every generated file must equal the fresh one.  Returns (ok, detail)."""
+    os.makedirs(work)
+    dst = os.path.join(work, "streams")
+    shutil.copytree(fresh_streams, dst)
+    k = 0
+    kinds = {}
+    for root, _, files in sorted(os.walk(dst)):
+        for f in sorted(files):
+            p = os.path.join(root, f)
+            b = bytearray(open(p, "rb").read())
+            k += 1
+            how = ["swap", "swap", "truncate", "future", "remove", "swap", "empty"][k % 7]
+            if how in ("swap", "future"):
+                done = False
+                for i in range(len(b) // 2, len(b) - 1):
+                    if b[i] != b[i + 1] and chr(b[i]).isalpha() and chr(b[i + 1]).isalpha():
+                        b[i], b[i + 1] = b[i + 1], b[i]
+                        done = True
+                        break
+                if not done:
+                    how = "truncate"
+            if how in ("swap", "future"):
+                open(p, "wb").write(bytes(b))
+                if how == "future":
+                    t = time.time() + 86400 * 365
+                    os.utime(p, (t, t))
+            elif how == "truncate":
+                open(p, "wb").write(bytes(b[:len(b) // 2]))
+            elif how == "empty":
+                open(p, "wb").write(b"")
+            else:
+                os.remove(p)
+            kinds[how] = kinds.get(how, 0) + 1
+    rc, out = sh([astool] + args, cwd=work)
+    if rc != 0:
+        return None, {"astool": out[-500:]}
+    differing = []
+    for root, _, files in sorted(os.walk(fresh_streams)):
+        for f in sorted(files):
+            gp = os.path.join(root, f)
+            rp = os.path.join(dst, os.path.relpath(gp, fresh_streams))
+            if not os.path.exists(rp) or open(rp, "rb").read() != open(gp, "rb").read():
+                differing.append(os.path.relpath(gp, fresh_streams))
+    shutil.rmtree(work, ignore_errors=True)
+    return (not differing), {"files_disturbed": kinds, "files_differing_afterwards": differing[:20], "count": len(differing)}
+
+
 def main():
     tier = sys.argv[1]
     seed = int(sys.argv[2])
@@ -90,6 +140,11 @@ def main():
         res["regeneration"] = {k: (v if not isinstance(v, list) else v[:10]) for k, v in cmp_.items()}
         if cmp_.get("error") or cmp_.get("only_generated") or cmp_.get("only_shipped_generated_files") or cmp_.get("different_syntax_trees"):
             res["violations"].append({"sig": "C15:regeneration", "what": "astool does not regenerate the shipped streams package (file set or syntax trees differ)", "detail": res["regeneration"]})
+        ok, detail = disturbed_destination(astool, sum((["-spec", os.path.join(REPO, "astool", sp)] for sp in SPECS), []) + ["-path", "github.com/go-fed/activity", "./streams"],
+                                           gen0, os.path.join(scratch, "shipreuse"))
+        res["shipped_disturbed_destination_equal"] = ok
+        if ok is False:
+            res["violations"].append({"sig": "C15:destination-state", "what": "astool's output for the shipped vocabularies depends on what an earlier run left in the destination directory", "detail": detail})
         shutil.rmtree(os.path.join(scratch, "ship0"))
         # ---- extension vocabularies
         k = 3 if tier == "quick" else 12
@@ -148,6 +203,11 @@ def main():
                 fail("C15:ext-theorems", "a theorem of C13 / C14 / C12 / C18 does not hold of the code astool emitted for an extension vocabulary", out[max(0, i - 400):i + 1500])
             res["extensions"].append(info)
             res["runs"] += 1
+            if s == 0:
+                ok, detail = disturbed_destination(astool, ["-spec", os.path.join(REPO, "astool", "activitystreams.jsonld"), "-spec", spec, "-path", "example.com/ext", "./streams"], os.path.join(e, "streams"), os.path.join(e, "reuse"))
+                info["disturbed_destination_equal"] = ok
+                if ok is False:
+                    fail("C15:destination-state", "astool's output for the same input depends on what an earlier run left in the destination directory", detail)
             shutil.rmtree(e, ignore_errors=True)
         return res
     finally:
